@@ -78,6 +78,14 @@ func (pres *Presence) UnmarshalXML(d *xml.Decoder, start xml.StartElement) error
 
 	// Extract packet attributes
 	for _, attr := range start.Attr {
+		// Stanza attributes are unqualified (xml:lang aside): an attribute of another namespace
+		// that happens to be called id, type, ... is not ours.
+		if attr.Name.Space != "" && attr.Name.Space != "xml" && attr.Name.Space != "http://www.w3.org/XML/1998/namespace" {
+			continue
+		}
+		if attr.Name.Space != "" && attr.Name.Local != "lang" {
+			continue
+		}
 		if attr.Name.Local == "id" {
 			pres.Id = attr.Value
 		}
